@@ -26,13 +26,16 @@ def main():
     # global defender on: attackers repeat one scan, so that many detection draws are made (the draws must come from the seeded stream)
     defender = len(sys.argv) > 5 and sys.argv[5] == "1"
     nsteps = 14 if defender else 6
-    cfg = nsgenv.base_config(scenario, use_dynamic_addresses=dynamic, required_players=4, use_global_defender=defender)
+    # trajectories are saved AND requested: what is written to the file must not leak into what is sent
+    cfg = nsgenv.base_config(scenario, use_dynamic_addresses=dynamic, required_players=4, use_global_defender=defender, save_trajectories=True)
     cfg["coordinator"]["agents"]["Attacker"]["max_steps"] = nsteps
     cfg["coordinator"]["agents"]["Attacker"]["start_position"]["controlled_hosts"] = ["random"]
     cfg["coordinator"]["agents"]["Attacker"]["goal"]["known_data"] = {}
     cfg["coordinator"]["agents"]["Attacker"]["goal"]["known_hosts"] = ["1.1.1.1"]
     cfg["coordinator"]["agents"]["Defender"]["goal"]["known_data"] = {"1.1.1.1": [["x", "y"]]}
-    os.chdir(nsgenv.BUILD)
+    import tempfile
+    os.makedirs(nsgenv.BUILD, exist_ok=True)
+    os.chdir(tempfile.mkdtemp(prefix="c20w_", dir=nsgenv.BUILD))
     # a first, throw-away start tells which hosts are random-start candidates in this scenario; the
     # probed configuration then mixes fixed hosts (one of them a start candidate), 'random' and known hosts
     d0 = nsgenv.start(cfg, seed=seed)
@@ -58,6 +61,10 @@ def main():
         k = next((i for i, (x, y) in enumerate(zip(first["transcript"], second["transcript"])) if x != y), None)
         first["second_run_first_difference"] = [k, first["transcript"][k] if k is not None else None, second["transcript"][k] if k is not None else None] if k is not None else [len(first["transcript"]), len(second["transcript"])]
     print(json.dumps(first))
+    import shutil
+    wd = os.getcwd()
+    os.chdir(nsgenv.BUILD)
+    shutil.rmtree(wd, ignore_errors=True)
 
 
 def play(cfg, seed, episodes, nsteps, defender, path):
